@@ -2,7 +2,10 @@
 what the statement says (WalkModel.tla is the oracle)."""
 import collections
 import json
+import os
 import re
+import shutil
+import tempfile
 
 import vlib
 
@@ -244,6 +247,33 @@ def run_jobs(jobs, timeout=1500):
     return flat
 
 
+def environment():
+    """The binding reaches the second device through /dev/shm: refuse to judge anything if it is not one."""
+    try:
+        d1 = os.stat(tempfile.gettempdir()).st_dev
+        d2 = os.stat("/dev/shm").st_dev
+    except OSError as ex:
+        raise vlib.ToolError("cannot stat the scratch locations: %s" % ex)
+    if d1 == d2:
+        raise vlib.ToolError("%s and /dev/shm are on the same device; the same_file_system scenarios need two"
+                             % tempfile.gettempdir())
+    if not os.access("/dev/shm", os.W_OK):
+        raise vlib.ToolError("/dev/shm is not writable")
+
+
+def sweep():
+    """Remove scratch trees of driver processes that no longer exist (killed by a timeout)."""
+    for base in (tempfile.gettempdir(), "/dev/shm"):
+        try:
+            names = os.listdir(base)
+        except OSError:
+            continue
+        for n in names:
+            m = re.match(r"c06-(\d+)-\d+$", n)
+            if m and not os.path.exists("/proc/%s" % m.group(1)):
+                shutil.rmtree(os.path.join(base, n), ignore_errors=True)
+
+
 class State:
     def __init__(self):
         self.pending = collections.Counter()
@@ -340,7 +370,7 @@ def explore(chk, st, cfg, simulate=None, depth=None, timeout=900, perturb_every=
     if not recs:
         raise vlib.ToolError("TLC emitted no scenario for %s:\n%s" % (cfg, res.tail(30)))
     jobs = make_jobs(recs, perturb_every, t16_every)
-    vlib.log("[%s] %s: %d states, %d scenarios (%d trees/roots) in %.1fs" % (
+    vlib.log("[%s] %s: %d states, %d scenarios (%d driver jobs) in %.1fs" % (
         PID, cfg, res.distinct, len(recs), len(jobs), res.wall))
     obs = run_jobs(jobs, timeout=timeout)
     for i, rec in enumerate(recs):
@@ -415,6 +445,7 @@ def main(tier):
         "bounds: see specs/walk/C06_*.cfg; the random tier samples trees of 3-6 nodes (20 random option records each) with TLC -simulate",
         "TLC fingerprint collisions improbable",
     ]
+    environment()
     vlib.hbin(DRIVER)
     if tier == "quick":
         # (the 16-thread run costs ~10 ms of sleeping per walk: in the quick tier the two exhaustive sets of tiny
@@ -427,7 +458,7 @@ def main(tier):
         plan = [("C06_unit_deep", dict(perturb_every=1, workers=4)),
                 ("C06_small", dict(perturb_every=2, workers=4)),
                 ("C06_dev", dict(perturb_every=1, workers=4)),
-                ("C06_deep", dict(perturb_every=4, timeout=2400, workers=6)),
+                ("C06_deep", dict(perturb_every=4, t16_every=2, timeout=2400, workers=6)),
                 ("C06_rand", dict(simulate=800, depth=12, perturb_every=1, timeout=2400, workers=4))]
     # TLC runs of later sets overlap with the replay of earlier ones (at most 12 TLC workers at a time in the quick tier)
     import concurrent.futures as cf
@@ -436,6 +467,7 @@ def main(tier):
         design(chk, st)
         for cfg, kw, fut in futs:
             explore(chk, st, cfg, res=fut.result(), **kw)
+    sweep()
     chk.exhaustive = True
     chk.extra["categories"] = dict(st.cats)
     chk.extra["pending_findings_hit"] = dict(st.pending)
@@ -448,6 +480,7 @@ def replay(path):
     rec = json.load(open(path))
     r = rec["record"]
     scn = r["scenario"]
+    environment()
     job = {"id": 0, "nodes": scn["t"], "roots": scn["r"], "cases": [case_of(scn["o"])], "threads": THREADS,
            "perturb": [4], "seed": vlib.seed()}
     out = vlib.run_driver(DRIVER, [job])[0]
